@@ -92,7 +92,15 @@ class ExprMixin(object):
             try:
                 return self.lit_value(st, ast.literal_eval(cexpr))
             except Exception:
-                raise Undecided("module-level name %r is not a literal constant" % name)
+                pass
+            # set([...]) / frozenset([...]) of literals: membership tests only need the elements
+            if isinstance(cexpr, ast.Call) and isinstance(cexpr.func, ast.Name) and cexpr.func.id in ("set", "frozenset") \
+                    and len(cexpr.args) == 1 and not cexpr.keywords:
+                try:
+                    return self.lit_value(st, sorted(ast.literal_eval(cexpr.args[0])))
+                except Exception:
+                    pass
+            raise Undecided("module-level name %r is not a literal constant" % name)
         raise Undecided("unknown global name %r" % name)
 
     def resolve_class_name(self, name):
@@ -164,6 +172,8 @@ class ExprMixin(object):
                     if len(subs) > 1 else self.mk_str(subs[0])
             if inner.kind == "ref" and inner.cls:
                 return self.get_attr(st, SV(None, "class", py=inner.cls), attr, acc, node)
+            if attr in ("__name__", "__module__"):
+                return st, SV(u.S(u.fresh("typename", u.Str)), "str")      # some text (only used in messages)
             raise Undecided("attribute %s of type(x)" % attr)
         if base.kind == "class":
             cname = base.py
@@ -238,6 +248,9 @@ class ExprMixin(object):
             return st, SV(None, "classof", py=base)
         if cls in CONTAINER_CLASSES:
             return st, SV(None, "callable", py=("contmethod", attr, base))
+        if cls is None and attr in ("__name__", "__module__", "__doc__"):
+            # name of a type / function object of unknown identity: some text (only used in messages)
+            return st, SV(u.S(u.fresh("objname", u.Str)), "str")
         if cls is None:
             duck = self.duck_class(attr)
             if duck is not None:
@@ -435,6 +448,13 @@ class ExprMixin(object):
             else:
                 real = z3.If(zi < 0, zi + n, zi)
             return st, self.seq_get(st, base, real)
+        if base.cls is None and idx.kind == "str" and not self.in_spec:
+            # value of unknown static type subscripted with a text key: supported when it is provably a dictionary
+            is_dict = self.class_test(u.r(base.z), "dict")
+            self.oblige(st, "type", self.auto_label(node, "dictkey"), is_dict,
+                        note="subscript with a text key on a value of unknown static type: must be a dict here (engine restriction)")
+            st.assume(is_dict)
+            base = SV(base.z, "ref", cls="dict")
         if base.cls == "dict":
             return self.dict_get_item(st, base, idx, acc, node)
         if base.cls is not None and base.cls not in CONTAINER_CLASSES:
@@ -636,6 +656,9 @@ class ExprMixin(object):
             s1.assume(z3.Not(go_on))
             merged = self.merge([s2, s1])
             tails_val = self.merge_sv_pair(go_on, v2, cur)
+            for f in self._pending_facts:       # facts about python-side operands made opaque by merge_sv_pair
+                merged.assume(f)
+            del self._pending_facts[:]
             st, cur = merged, tails_val
         return st, cur
 
@@ -653,7 +676,8 @@ class ExprMixin(object):
             # truthy function object; calls through the merged value need a call-site contract
             boxed = []
             for x in (a, b):
-                if x.z is None and x.kind == "callable":
+                if x.z is None and x.kind in ("callable", "module", "class"):
+                    # (a module attribute such as six.text_type is a type object: opaque and callable as well)
                     obj = self.u.fresh_val("callable")
                     f = self.u.uf("is_callable", self.u.Val, self.u.Bool)
                     self._pending_facts.append(z3.And(self.u.is_R(obj), f(obj)))
@@ -681,7 +705,11 @@ class ExprMixin(object):
         s2.assume(z3.Not(t))
         s2, v2 = self.eval(node.orelse, s2, acc)
         merged = self.merge([s1, s2])
-        return merged, self.merge_sv_pair(t, v1, v2)
+        res = self.merge_sv_pair(t, v1, v2)
+        for f in self._pending_facts:
+            merged.assume(f)
+        del self._pending_facts[:]
+        return merged, res
 
     def e_Compare(self, node, st, acc):
         st, left = self.eval(node.left, st, acc)
